@@ -406,7 +406,26 @@ fn run_on<'t>(file: &File, functions: &Functions, globals: &Variables, tree: &'t
             }
         }
     }));
-    r.unwrap_or(RunObs { class: "panic".into(), text: "PANIC".into() })
+    let mut obs = r.unwrap_or(RunObs { class: "panic".into(), text: "PANIC".into() });
+    // the public match visitor on the same file and tree: matches in the order visited, capture names in the order the
+    // Match lists them (capture_names / named_captures), nodes by preorder index -- NOT sorted: the order is a result too
+    let visit = catch_unwind(AssertUnwindSafe(|| {
+        let mut out = String::new();
+        let res = file.try_visit_matches::<(), _>(tree, src, lazy, |m| {
+            let full = info.ids.get(&m.full_capture().id()).copied().unwrap_or(usize::MAX);
+            let names: Vec<String> = m.capture_names().map(|n| n.to_string()).collect();
+            let caps: Vec<String> = m.named_captures().map(|(name, q, nodes)| {
+                format!("{}:{:?}:{:?}", name, q, nodes.map(|n| info.ids.get(&n.id()).copied().unwrap_or(usize::MAX)).collect::<Vec<_>>())
+            }).collect();
+            out.push_str(&format!("{:?}|{}|{}|{}\n", m.query_location(), full, names.join(","), caps.join(",")));
+            Ok(())
+        });
+        if res.is_err() { out.push_str("VISIT-ERR\n"); }
+        out
+    })).unwrap_or_else(|_| "VISIT-PANIC\n".to_string());
+    obs.text.push_str("\nVISIT\n");
+    obs.text.push_str(&visit);
+    obs
 }
 
 /// The isolated reference: fresh load of the text, fresh function table and variables, fresh parse, ONE run.
